@@ -33,6 +33,13 @@ def run(ctx):
     l6(ctx, F)
     # the per-ply *state stack* as well: the longest game the front ends accept plus the deepest line the search can be on fits its
     # capacity (the length accounting of C15.CAP; an overrun is silent memory corruption in release builds)
+    # L8 the limit is given where `go` reads its words: the `depth` word has an arm of its own that stores the number
+    from . import p13
+    p13.depth_word(ctx, F)
+    # L9 = C10.N9: the iteration asked for is searched unless a stop was asked for (an abort value returned for any other reason
+    # makes the driver answer from a shallower iteration than the limit)
+    from . import p10
+    p10.n9(ctx, F, rule="C08.L9")
     from . import p15
     try:
         _rule, ok_cap, found_cap = p15.stack_capacity(ctx, F.fn("chess::Game::push"), None, F)
